@@ -196,6 +196,8 @@ func runHonest(t *rapid.T, c runCfg, extra func(w *chainsim.World, m *chainsim.M
 		return tipsSummary(w)
 	})
 	installPanicReporter(w, m)
+	// the delete oracle keeps a full database dump per unfinalized block and node: only in the run of its own property
+	m.Enabled["C05"] = c.prop == "C05"
 	w.SyncMon = chainsim.NewSyncMonitor(w, m.Report) // the sync oracles (C19) ride along in every run
 	if c.mutants {
 		chainsim.NewMutantInjector(w, m, m.Report)
